@@ -97,8 +97,12 @@ struct Ctx {
     size_t terms_total_raw=0, terms_total_vals=0, terms_total_polys=0, terms_total_atoms=0;
     void reset_store();
     id_t mono(const MonoV &m) { auto it=mono_hc.find(m); if (it!=mono_hc.end()) return it->second; monos.push_back(m); return mono_hc[m]=monos.size()-1; }
+    size_t poly_calls=0;
+    static size_t rss_bytes() { FILE *f=fopen("/proc/self/statm","r"); if (!f) return 0; long a=0,b=0; if (fscanf(f,"%ld %ld",&a,&b)!=2) b=0; fclose(f); return (size_t)b*4096; }
     id_t poly(const PolyV &p) {
         if (p.size() > max_poly_terms) throw blowup("polynomial with " + std::to_string(p.size()) + " terms");
+        // memory guard: the process has a 6 GB address-space limit and GMP cannot recover from a failed allocation; stop the path well before that
+        if ((++poly_calls & 0x3fff) == 0 && rss_bytes() > (size_t)4200 << 20) throw blowup("harness memory budget (4.2 GB resident) reached");
         std::vector<std::pair<id_t,std::string>> key; key.reserve(p.size()); for (auto &t : p) key.push_back({t.first, t.second.get_str(62)});
         auto it=poly_hc.find(key); if (it!=poly_hc.end()) return it->second; polys.push_back(p); return poly_hc[key]=polys.size()-1; }
     id_t val(id_t n, id_t d) { auto k=std::make_pair(n,d); auto it=val_hc.find(k); if (it!=val_hc.end()) return it->second; vals.push_back({n,d}); return val_hc[k]=vals.size()-1; }
@@ -615,7 +619,9 @@ inline void Ctx::acquire_witness() { need_witness=false; int full=solver().timeo
     else { report().witness_unknown++; if (undecided_budget==0) throw undecided(); --undecided_budget; } }
 struct Options { size_t max_paths=64; size_t max_depth=60; bool check_reach=true; size_t max_undecided=2; double budget_s=40; };
 template<class Body> inline void explore(const std::string &casename, Body body, const Options &opt=Options()) {
-    Ctx &c=ctx(); Report &r=report(); c.reset_store(); qeval().rmemo.clear(); qeval().amemo.clear(); qeval().wit_snapshot.clear(); assumed_fs().clear(); c.max_depth=opt.max_depth; c.undecided_budget=opt.max_undecided; size_t npaths=0;
+    // NOTE: the term store is NOT reset between cases: the library keeps scalar constants in function-local statics (one, zero, ruge_stuben's eps),
+    // whose handles would dangle (tried: a later Ruge-Stuben case then computed with a stale constant).  Memory is bounded by sharding instead.
+    Ctx &c=ctx(); Report &r=report(); c.max_depth=opt.max_depth; c.undecided_budget=opt.max_undecided; size_t npaths=0;
     std::vector<Ctx::Work> todo; todo.push_back(Ctx::Work{}); std::vector<double> nowit;
     auto t_case=std::chrono::steady_clock::now();
     while (!todo.empty()) {
